@@ -1,6 +1,6 @@
 import Driver.C17
 import IronCalc.Book.Names
-open IronCalc.Book IronCalc.Formula
+open IronCalc.Book IronCalc.RefTree
 namespace Driver
 
 def parseScope (s : String) : Option (Option Nat) :=
